@@ -216,6 +216,8 @@ def _worker(args):
         if level == "-Q9" and P.has_recursion(pr):
             ev.excluded_known["C02-K8-q9-recursion-diverges"] += 1
             level = "-Q2"
+        if mode == "split" and P.decls_of(pr).get("tmpls"):
+            mode = "forms"      # the stateful templates own file-level variables; they are not split across units
         h = hashlib.sha256(repr((pr, level, mode)).encode()).hexdigest()[:14]
         if mode == "forms":
             src = P.render(pr)
